@@ -311,6 +311,11 @@ def _kernels():
     reg('raise_native_convolve_mode', ['fl', 'w3'], lambda I: mahotas._convolve.convolve(
         g(I, 'fl'), g(I, 'w3'), np.empty_like(g(I, 'fl')), 77))
     reg('raise_native_spline_order', ['fl'], lambda I: mahotas._interpolate.spline_filter1d(g(I, 'fl').copy(), 7, 0))
+    # (round 4) the PUBLIC calls that raise from inside a released region: order 1 passes the Python check and is rejected
+    # by `init_poles` inside `spline_filter1d<T>` (after `gil_release`); and the second in-kernel throw of that kernel
+    reg('raise_public_spline1d_order1', ['fl'], lambda I: mh.interpolate.spline_filter1d(g(I, 'fl'), order=1))
+    reg('raise_public_spline_order1', ['fl'], lambda I: mh.interpolate.spline_filter(g(I, 'fl'), order=1))
+    reg('raise_native_spline_axis', ['fl'], lambda I: mahotas._interpolate.spline_filter1d(g(I, 'fl').copy(), 3, 5))
     # ... in the Python wrappers / native validation (lock held)
     reg('raise_wrapper_spline_order', ['fl'], lambda I: mh.interpolate.spline_filter1d(g(I, 'fl'), order=7))
     reg('raise_wrapper_erode_ndim', ['b'], lambda I: mh.erode(g(I, 'b'), np.ones((3, 3, 3), bool)))
@@ -328,8 +333,9 @@ def _fill_polygon(mh, np, I):
 
 
 RAISING = ['raise_cooccurence_negative', 'raise_native_convolve_mode', 'raise_native_spline_order',
+           'raise_public_spline1d_order1', 'raise_public_spline_order1', 'raise_native_spline_axis',
            'raise_wrapper_spline_order', 'raise_wrapper_erode_ndim', 'raise_wrapper_convolve_mode', 'raise_wrapper_thin_ndim', 'raise_native_type']
-IN_KERNEL_RAISING = RAISING[:3]
+IN_KERNEL_RAISING = RAISING[:6]
 NATIVE_PROBES = ['native_center_of_mass', 'native_convexhull']
 # kernels drawn for random mixes (names only: the registry itself lives in the child)
 REGULAR = ['erode', 'erode_u8', 'erode_shared_bc', 'locmax_shared_bc', 'regmin_shared_bc', 'median_shared_bc', 'dilate', 'dilate_b', 'open', 'close', 'cwatershed', 'cwatershed_lines', 'hitmiss',
@@ -1072,6 +1078,13 @@ def cases(rng, tier):
             out.append(dict(kind='stress', threads=thread_counts[ci % len(thread_counts)], shared=shared_cover, reps=3,
                             switch=None, reset_perimeter='perimeter' in names,
                             calls=[[n, rng.randint(0, 10 ** 6), size] for n in names]))
+    # (round 4) every call that raises INSIDE a kernel on LARGE inputs, in every tier, nearly alone and threaded: a hand-written
+    # release that is only taken above a size threshold, or an error path that skips the re-acquire, shows only there (the
+    # sequential reference call already dies then: reported as `crash:<kernel>`)
+    for k in IN_KERNEL_RAISING:
+        for size, nt, shared_big in ((64, 2, False), (96, 8, True), (256, 4, False)):
+            out.append(dict(kind='stress', threads=nt, shared=shared_big, reps=2, switch=None, reset_perimeter=False,
+                            calls=[[k, rng.randint(0, 10 ** 6), size]]))
     # the same kernel on inputs of DIFFERENT shapes at the same time: exposes per-call tables or scratch buffers that
     # were made static / module-level (their content depends on the input's shape, e.g. strides, bounding boxes, grey
     # levels), which identical concurrent inputs can never show
